@@ -24,9 +24,12 @@ def run_property(pid, tier, seed, root=None, overrides=None, write=True, with_se
     mod.check(ctx)
     st_rc = 0
     if with_selftest:
-        from . import selftest
+        from . import bytecheck, selftest
+        bc_rc, bc = bytecheck.run(prog)
+        ctx.extra["fact_base_cross_check"] = bc
         st_rc = selftest.run(pid, seed)
         ctx.extra["self_test"] = getattr(selftest.run, "last_summary", {})
+        st_rc = st_rc or bc_rc
     if write:
         rc = finish(ctx, t0, mod.EXPLANATION, mod.ASSUMPTIONS)
         return (rc if rc != 0 else st_rc), ctx
